@@ -142,6 +142,9 @@ fn delivered_count(c: &Call) -> usize {
 }
 
 pub fn evaluate(cfg: &RunCfg, rec: &RunRecord) -> (Vec<Finding>, Facts) {
+    if cfg.prop == "C16" {
+        return evaluate_c16(cfg, rec);
+    }
     let mut out: Vec<Finding> = Vec::new();
     let kind = cfg.kind;
     let len = cfg.len;
@@ -1004,4 +1007,255 @@ fn eval_queries(
             }
         }
     }
+}
+
+// ---------------------------------------------------------------------------------------------
+// C16: boundary arithmetic. Everything is computed in u128 / i128, nothing enumerates 0..len.
+
+fn empty_facts(rec: &RunRecord) -> Facts {
+    Facts {
+        has_skip: false,
+        has_panic: false,
+        has_composite: false,
+        aborted: rec.sim.aborted,
+        end_observed: false,
+        lin_checked: false,
+        lin_states: 0,
+        n_calls: rec.calls.len(),
+        n_deliveries: 0,
+        short_chunks: 0,
+        overshoot_pulls: 0,
+        quiescent_queries: 0,
+        racing_queries: 0,
+        pulls_after_end: 0,
+        pulls_after_skip: 0,
+        inflight_at_skip: 0,
+    }
+}
+
+pub fn evaluate_c16(cfg: &RunCfg, rec: &RunRecord) -> (Vec<Finding>, Facts) {
+    let (mut out, facts) = evaluate_c16_inner(cfg, rec);
+    if rec.sim.stats.counter_wraps > 0 {
+        for x in out.iter_mut() {
+            x.msg
+                .push_str(" [root-cause marker: a position counter wrapped around usize::MAX]");
+        }
+    }
+    (out, facts)
+}
+
+fn evaluate_c16_inner(cfg: &RunCfg, rec: &RunRecord) -> (Vec<Finding>, Facts) {
+    let mut out = Vec::new();
+    let mut facts = empty_facts(rec);
+    let calls = &rec.calls;
+    let len = cfg.len as u128;
+    let start = cfg.start as u128;
+    let is_range = cfg.kind.is_range();
+    let p = "C16";
+    if let Some(v) = &rec.sim.verdict {
+        out.push(f(p, "hang", format!("the run did not terminate: {:?}", v)));
+        return (out, facts);
+    }
+    if rec.sim.aborted {
+        return (out, facts);
+    }
+    facts.has_skip = calls.iter().any(|c| c.kind == CallKind::Skip);
+    let pos = |o: &ItemObs| -> i128 {
+        if is_range {
+            o.raw as i128 - start as i128
+        } else {
+            o.raw as i128
+        }
+    };
+    let mut ops: Vec<LinOp> = Vec::new();
+    let mut delivered: u128 = 0;
+    for (ci, c) in calls.iter().enumerate() {
+        let zero_must_panic = c.arg == 0
+            && matches!(
+                c.kind,
+                CallKind::BufNew | CallKind::ForEach | CallKind::EnumForEach | CallKind::Fold
+            );
+        match &c.res {
+            Res::Panicked { injected: false, msg } => {
+                if zero_must_panic && msg.contains("Chunk size must be positive") {
+                    continue;
+                }
+                out.push(f(
+                    p,
+                    "unexpected-panic",
+                    format!("{} panicked: {msg}", describe_call(rec, ci)),
+                ));
+                return (out, facts);
+            }
+            _ if zero_must_panic && c.arg != usize::MAX => {
+                out.push(f(
+                    p,
+                    "missing-documented-panic",
+                    format!(
+                        "{} with chunk size zero did not panic",
+                        describe_call(rec, ci)
+                    ),
+                ));
+                return (out, facts);
+            }
+            _ => {}
+        }
+        let act = match (&c.kind, &c.res) {
+            (k, Res::Item { idx, obs }) if k.is_pull() => {
+                let a = pos(obs);
+                if a < 0 || a as u128 >= len {
+                    out.push(f(
+                        p,
+                        "out-of-range",
+                        format!(
+                            "{} delivered value {} which is not in the source (start {}, length {})",
+                            describe_call(rec, ci),
+                            obs.raw,
+                            cfg.start,
+                            cfg.len
+                        ),
+                    ));
+                    return (out, facts);
+                }
+                if let Some(i) = idx {
+                    if *i as i128 != a {
+                        out.push(f(
+                            p,
+                            "wrong-index",
+                            format!(
+                                "{} reported index {i} for position {a}",
+                                describe_call(rec, ci)
+                            ),
+                        ));
+                        return (out, facts);
+                    }
+                }
+                delivered += 1;
+                Act::Pull(1, Some((a as usize, 1)))
+            }
+            (k, Res::Chunk { begin, announced, items, lens, impossible, .. }) if k.is_pull() => {
+                let n = c.arg;
+                let b = *begin as u128;
+                let a = *announced as u128;
+                let mut bad: Option<String> = None;
+                if n == 0 {
+                    bad = Some("a pull with chunk size zero returned a chunk".into());
+                } else if *impossible || a > n as u128 || b + a > len {
+                    bad = Some(format!(
+                        "chunk [{b}, {b}+{a}) does not lie inside the source of length {len} / exceeds the chunk size {n}"
+                    ));
+                } else if a == 0 {
+                    bad = Some("returned an empty chunk".into());
+                } else if items
+                    .iter()
+                    .enumerate()
+                    .any(|(j, o)| pos(o) != (b + j as u128) as i128)
+                {
+                    bad = Some(format!(
+                        "values {:?} are not the consecutive positions from begin index {b} (start {start})",
+                        items.iter().map(|o| o.raw).collect::<Vec<_>>()
+                    ));
+                } else if lens.iter().enumerate().any(|(j, l)| *l as u128 != a - j as u128) {
+                    bad = Some(format!("len() did not count down from {a}: {:?}", lens));
+                }
+                if let Some(bad) = bad {
+                    out.push(f(
+                        p,
+                        "chunk-contract",
+                        format!("{}: {bad}", describe_call(rec, ci)),
+                    ));
+                    return (out, facts);
+                }
+                delivered += a;
+                Act::Pull(n, Some((*begin, *announced)))
+            }
+            (k, Res::End) if k.is_pull() => {
+                if c.arg == 0 && *k == CallKind::Chunk {
+                    // a one-shot pull of size zero is a no-op in the model
+                    continue;
+                }
+                Act::Pull(c.arg.max(1), None)
+            }
+            (CallKind::Len, Res::Len(l)) => Act::Len(*l),
+            (CallKind::HasMore, Res::HasMore(h)) => Act::Len(match h {
+                HasMoreObs::Yes(n) => Some(*n),
+                HasMoreObs::No => Some(0),
+                HasMoreObs::Maybe => None,
+            }),
+            (CallKind::Skip, Res::Unit) => Act::Skip,
+            _ => continue,
+        };
+        if facts.has_skip && matches!(act, Act::Len(_)) && cfg.threads.len() >= 2 {
+            continue; // racing queries + skip: judged by C11's clauses, see evaluate()
+        }
+        ops.push(LinOp {
+            invoke: c.invoke,
+            ret: c.ret,
+            tid: c.tid,
+            act,
+            call: ci,
+        });
+    }
+    let sized = cfg.kind.known_size() || cfg.hint == crate::elems::Hint::Exact;
+    let m = Model { len: cfg.len, sized };
+    if ops.len() <= 60 {
+        let r = lin::check(&m, &ops);
+        facts.lin_checked = true;
+        facts.lin_states = r.states_visited;
+        if !r.ok {
+            let stuck: Vec<String> = r
+                .stuck_on
+                .iter()
+                .take(4)
+                .map(|&ci| format!("{} -> {}", describe_call(rec, ci), brief(&calls[ci].res)))
+                .collect();
+            out.push(f(
+                p,
+                "not-the-mathematical-result",
+                format!(
+                    "results differ from the cursor model computed without machine-word wrap-around (start {}, length {}): after {} of {} calls none of the candidates fits: {:?}",
+                    cfg.start, cfg.len, r.best_depth, ops.len(), stuck
+                ),
+            ));
+            return (out, facts);
+        }
+    }
+    // into_seq_iter: the first values of the remainder
+    if let Some(items) = &rec.seq_items {
+        let got: Vec<i128> = items.iter().map(&pos).collect();
+        let c0 = delivered.min(len);
+        let want: Vec<i128> = (0..items.len() as u128)
+            .map(|j| (c0 + j) as i128)
+            .collect();
+        let within = got.iter().all(|&g| g >= 0 && (g as u128) < len);
+        let ok = if facts.has_skip {
+            // an ordered run of undelivered positions
+            within && got.windows(2).all(|w| w[1] == w[0] + 1) && got.first().map(|&g| g as u128 >= c0).unwrap_or(true)
+        } else {
+            let expected_count = (len - c0).min(match cfg.terminal {
+                Terminal::IntoSeq(mm) => mm as u128,
+                _ => 0,
+            });
+            within && got == want && items.len() as u128 == expected_count
+        };
+        if !ok {
+            out.push(f(
+                p,
+                "wrong-remainder",
+                format!(
+                    "into_seq_iter yielded positions {:?} (values {:?}); {} positions were delivered of {} (start {})",
+                    got,
+                    items.iter().map(|o| o.raw).collect::<Vec<_>>(),
+                    delivered,
+                    len,
+                    cfg.start
+                ),
+            ));
+        }
+    }
+    if let Some(msg) = &rec.terminal_panic {
+        out.push(f(p, "unexpected-panic", format!("terminal action panicked: {msg}")));
+    }
+    facts.n_deliveries = delivered.min(1_000_000) as usize;
+    (out, facts)
 }
